@@ -13,7 +13,8 @@ from rules.facts import Crate
 from rules.mir import Body, show, callee_key
 
 PROP = 'C17'
-SITE_FLOOR = 3
+SITE_FLOOR = 0     # replacing the hash maps by ordered maps is a legitimate change; non-vacuity comes from the fixtures and BODY_FLOOR
+BODY_FLOOR = 100
 HASH_TYPES = ('std::collections::hash::map::HashMap', 'std::collections::hash::set::HashSet')
 ITER_METHODS = {'iter', 'iter_mut', 'into_iter', 'keys', 'values', 'values_mut', 'into_keys', 'into_values', 'drain', 'retain', 'extract_if'}
 PROPAGATE = {'core::iter::traits::collect::IntoIterator::into_iter', 'core::iter::traits::iterator::Iterator::next', 'core::iter::traits::iterator::Iterator::map',
@@ -21,7 +22,7 @@ PROPAGATE = {'core::iter::traits::collect::IntoIterator::into_iter', 'core::iter
              'core::iter::traits::iterator::Iterator::cloned', 'core::iter::traits::iterator::Iterator::copied', 'core::ops::deref::Deref::deref', 'core::ops::deref::DerefMut::deref_mut',
              'core::clone::Clone::clone', 'core::ops::drop::Drop::drop', 'core::mem::drop'}
 ORDER_FREE = {'alloc::vec::Vec::is_empty', 'alloc::vec::Vec::len', 'slice::len', 'slice::is_empty'}
-SORTS = {'slice::sort_by_key', 'slice::sort', 'slice::sort_unstable', 'slice::sort_unstable_by_key', 'slice::sort_by_cached_key'}
+SORTS = {'slice::sort_by_key', 'slice::sort', 'slice::sort_unstable', 'slice::sort_unstable_by_key', 'slice::sort_by_cached_key', 'slice::sort_by', 'slice::sort_unstable_by'}
 DENY_PREFIX = ('std::time', 'std::env', 'std::process', 'std::thread', 'std::fs', 'std::net', 'std::hash::random', 'std::collections::hash::map::RandomState',
                'std::io::stdio', 'std::os', 'std::sys::', 'core::fmt::Pointer', 'std::ptr', 'core::ptr::mut_ptr', 'core::ptr::const_ptr', 'std::collections::hash::map::DefaultHasher')
 
@@ -153,6 +154,15 @@ def check_crate(cr, ctx, label):
             sb, sk, sargs = sorts[0]
             if not all(body.dominates(sb, rb) for rb in body.returns()):
                 bad('the sort at bb%d does not dominate every return: on some path the data is returned in hash order' % sb); continue
+            if sk in ('slice::sort_by', 'slice::sort_unstable_by'):
+                # comparator must be  |a, b| a.0.cmp(&b.0)  (first components = the unique map keys)
+                kr = closure_body_ret(cr, peel(sargs[1]))
+                okc = False
+                if kr and kr[0] == 'call' and kr[1] in ('core::cmp::Ord::cmp', 'core::cmp::PartialOrd::partial_cmp') and len(kr[2]) == 2:
+                    x, y = peel(kr[2][0]), peel(kr[2][1])
+                    okc = x[0] == 'field' and x[2] == 0 and y[0] == 'field' and y[2] == 0 and {peel(x[1]), peel(y[1])} == {('arg', 1), ('arg', 2)}
+                if not okc:
+                    bad('the comparator %s of %s is not a comparison of the first tuple components (the unique map keys)' % (show(kr) if kr else '?', sk), 'unrecognised'); continue
             if sk.endswith('_by_key') or sk.endswith('by_cached_key'):
                 kr = closure_body_ret(cr, peel(sargs[1]))
                 if kr is None or not key_projects_first(kr):
@@ -201,8 +211,8 @@ def main(tier, seed, t0):
     cr = Crate(fp)
     n_sites = check_crate(cr, ctx, 'enum_tools')
     n_bodies = len([1 for b in cr.bodies.values() if 'mir' in b])
-    if n_sites < SITE_FLOOR:
-        ctx.error('only %d hash-map iteration sites found in the generator, floor is %d (parse_values, FeatureParser::finish, Params::finish)' % (n_sites, SITE_FLOOR))
+    if n_sites < SITE_FLOOR or n_bodies < BODY_FLOOR:
+        ctx.error('only %d hash-map iteration sites / %d bodies found in the generator (floors %d / %d)' % (n_sites, n_bodies, SITE_FLOOR, BODY_FLOOR))
     # fixtures
     fst, fd = fixture_stage()
     ffp = os.path.join(fd, 'facts', 'c17_bad.json')
